@@ -227,7 +227,7 @@ class EpollXfer(Unit):
     reader loop over one pipe of capacity 4096, buffer sizes below / at / above the capacity.  Direct
     monitors only (bytes received = bytes sent, in order; every operation completes once; descriptors
     released): nothing is projected onto a model."""
-    name = "io_epoll_context/xfer"; driver = "k1_epoll_xfer"; cfg = "shim17"; handler = "iocancel"
+    name = "io_epoll_context/xfer"; driver = "k1_epoll_xfer"; cfg = "shim17"; handler = "remotequeue"
     ctx = "io_epoll"
     bound = {"quick": 1, "thorough": 2}
     maxruns = {"quick": 150, "thorough": 3000}
@@ -240,9 +240,72 @@ class EpollXfer(Unit):
             progs += [("4097", "4097", "1"), ("20000", "4096", "4096"), ("8192", "8192", "8192")]
         return progs
 
+    def model_args(self, prog):
+        return "- 0 0"      # nothing is replayed on a model: the projection is empty
+
     def project(self, prog, events):
         return []
 
 
 def extra_units():
     return [EpollXfer()]
+
+
+# ----------------------------------------------------------------------------- io_uring (real threads)
+URING_KEYS = {   # (case name prefix, verdict tag) -> key
+    ("resubmit", "DOUBLE-REG"): "finding10-stop-callback-registered-twice",
+    ("cancelmany", "DOUBLE-REG"): "finding10-stop-callback-registered-twice",
+    ("prestop", "LOST"): "finding16-prestopped-operation-not-cancelled",
+    ("stoprace", "DATALOSS"): "finding17-transferred-bytes-reported-as-done",
+}
+
+
+def uring_cases(tier):
+    cases = [("basic",), ("cancel",), ("prestop",), ("eisdir",), ("stoprace", "200"),
+             ("xfer", "10000", "3000", "1000"), ("xfer", "5000", "5000", "4096"), ("xfer", "1", "1", "1"),
+             ("remote", "3", "40"), ("release",), ("resubmit", "300"), ("cancelmany", "300")]
+    if tier != "quick":
+        cases += [("stoprace", "1000"), ("xfer", "100000", "4096", "4096"), ("xfer", "9000", "100", "8192"),
+                  ("remote", "6", "200"), ("resubmit", "700"), ("resubmit", "257"), ("cancelmany", "450")]
+        cases += [("basic",), ("cancel",), ("prestop",)] * 10
+    return cases
+
+
+def run_uring(chk):
+    """io_uring_context on real threads and the real ring (harness/k1_uring_io.cpp, configuration plain17):
+    direct monitors only.  Each case is one process; its single output line is
+    'CASE <name> | <verdict> | <details>'."""
+    import vlib
+    from concurrent.futures import ThreadPoolExecutor
+    exe, err = vlib.build_driver("k1_uring_io", "plain17")
+    if err:
+        p = chk.replay_file("build_k1_uring_io", {"kind": "build-failure", "driver": "k1_uring_io", "error": err})
+        chk.violation("io_uring/build", p, no_input=True, text="driver k1_uring_io does not compile against /repo")
+        return
+    st = chk.cov.setdefault("uring_cases", {"cases": 0, "passed": 0})
+    cases = uring_cases(chk.tier)
+    def one(c):
+        return c, vlib.sh2([exe] + list(c), timeout=120)
+    # the cases share nothing; a few at a time (each starts real threads)
+    with ThreadPoolExecutor(4) as ex:
+        results = list(ex.map(one, cases))
+    for c, (rc, out, errt) in results:
+        st["cases"] += 1
+        chk.count(("uring",) + c, True)
+        line = next((l for l in out.split("\n") if l.startswith("CASE ")), "")
+        parts = line.split(" | ")
+        if rc != 0 or len(parts) < 3:
+            p = chk.replay_file("uring_crash_%s" % "_".join(c), {"kind": "driver-crash", "case": c, "rc": rc,
+                                "stdout": out[-2000:], "stderr": errt[-2000:], "replay": "%s %s" % (exe, " ".join(c))})
+            chk.violation("io_uring/%s/crash" % "_".join(c), p, text="k1_uring_io %s: rc=%d %s" % (" ".join(c), rc, errt[-200:]))
+            continue
+        verdict = parts[1].strip()
+        if not verdict:
+            st["passed"] += 1
+            continue
+        tag = verdict.split(":")[0]
+        key = URING_KEYS.get((c[0], tag))
+        key = "io_uring/" + (key if key else "monitor-%s/%s" % (tag.lower(), "_".join(c)))
+        p = chk.replay_file("uring_%s" % "_".join(c), {"kind": "monitor-failed-on-implementation", "case": c,
+                            "verdict": verdict, "details": parts[2].strip(), "replay": "%s %s" % (exe, " ".join(c))})
+        chk.violation(key, p, text="[uring %s] %s\n  replay: %s %s" % (" ".join(c), verdict[:300], exe, " ".join(c)))
